@@ -12,13 +12,18 @@
    mechanised observationally in [C08_atomic_read_fine] (Proofs/C08Reduction.v): on the fine model instrumented
    with data, for every schedule, everything a reader's segment read section observes (segment tree and every
    profile tree read inside it) is the content after exactly the writers whose write section began before it,
-   each whole, in section order.  Left out there: the explicit construction of a coarse schedule by commuting
-   actions (the statement is proved directly by an invariant over the fine run instead); trees are not
-   partitioned by series (all threads work on one series); for the FULL access-table threads (with cache / lfu /
-   dimension steps) the two section disciplines [wdisc]/[rdisc] are checked on instances, parametrically only for
-   the section-only threads [put_core]/[get_core].
+   each whole, in section order.  [C08_atomic_read_full] instantiates it for the FULL access-table threads (Put with
+   its cache / dimension / segment / tree sections, Delete+retention, renders, write-back and eviction tasks,
+   savers) of one series, for ANY number of them and all parameters (Proofs/C08Full.v proves the two section
+   disciplines [wdisc]/[rdisc] of these threads parametrically), and [C08_atomic_read_full_linearised] exhibits
+   the explicit coarse schedule — the writers of S, each whole, in section order, then the render — on which the
+   coarse model's render returns exactly S.  Left out: the linearisation is built from the invariant's witness S,
+   not by commuting the actions of the given fine schedule step by step; it covers ONE render's observation (not
+   several renders in one coarse schedule); trees are not partitioned by series (all threads of the instrumented
+   model work on one series s: a Put into another series is not in [series_thread s]); Badger / lfu contents are
+   not data.
    PARTIAL: the Go scheduler and the Go memory model are sampled by the correspondence run (race detector). *)
-From Pyro Require Import Model.Base Model.Conc Model.ConcData Proofs.ConcProofs Proofs.C08Reduction.
+From Pyro Require Import Model.Base Model.Conc Model.ConcData Proofs.ConcProofs Proofs.C08Reduction Proofs.C08Full.
 From Coq Require Import Permutation.
 
 (* lockset: every thread of the table makes every access holding that location's lock in the right mode, and
@@ -117,6 +122,50 @@ Theorem C08_atomic_read_fine_core : forall s puts reads sched,
     (forall i, In i S -> In i T).
 Proof. exact atomic_read_fine_core. Qed.
 Print Assumptions C08_atomic_read_fine_core.
+
+(* the same for the FULL access-table threads of one series: any number of ingests, deletes / retention runs,
+   renders, write-back and eviction tasks and savers, any parameters, any schedule; g is any of the renders *)
+Theorem C08_atomic_read_full : forall s g ts ds trs,
+  Forall (series_thread s) ts -> nth_error ts g = Some (get_thread s ds trs) ->
+  forall sched,
+  let d := snd (drun s g sched ts) in
+  forall S C T, d_snap d = Some (S, C, T) ->
+    (forall x v, In (x, v) (d_obs d) -> v = after_puts s ts S x) /\
+    NoDup S /\ (exists rest, d_order d = S ++ rest) /\
+    (forall i, In i C -> i <> g -> 0 < nwrites s (nth i ts []) -> In i S) /\
+    (forall i, In i S -> In i T).
+Proof. exact atomic_read_full. Qed.
+Print Assumptions C08_atomic_read_full.
+
+(* ... and the explicit coarse schedule: the writers of S, each whole (called, write section, acknowledged), in
+   section order, then the render; on it the COARSE model's render returns exactly S, and every fine observation
+   is the content after the ingests the coarse schedule applied *)
+Theorem C08_atomic_read_full_linearised : forall s g ts ds trs,
+  Forall (series_thread s) ts -> nth_error ts g = Some (get_thread s ds trs) ->
+  forall sched,
+  let d := snd (drun s g sched ts) in
+  forall S C T, d_snap d = Some (S, C, T) ->
+    let lin := linearisation S g in
+    r_read (c_run lin) = [(g, S)] /\ c_applied (c_run lin) = S /\
+    (forall x v, In (x, v) (d_obs d) -> v = after_puts s ts (c_applied (c_run lin)) x).
+Proof. exact atomic_read_full_linearised. Qed.
+Print Assumptions C08_atomic_read_full_linearised.
+
+(* the section disciplines of the full threads, for all parameters *)
+Theorem C08_full_threads_disciplined : forall s t, series_thread s t ->
+  wdisc s false [] t = true /\ ordered_thread t = true /\ lockset_thread t = true.
+Proof. exact full_threads_disciplined. Qed.
+Print Assumptions C08_full_threads_disciplined.
+
+Theorem C08_render_disciplined : forall s ds ts, rdisc s false [] (get_thread s ds ts) = true.
+Proof. exact get_thread_rdisc. Qed.
+Print Assumptions C08_render_disciplined.
+
+Example C08_full_run_nonvacuous :
+  let d := snd (drun 0 2 (repeat 0 200 ++ repeat 2 40 ++ repeat 1 200 ++ repeat 2 200) full_example_threads) in
+  d_obs d = [(LocTree 3, [0]); (LocTree 1, [0; 1]); (LocSegTree 0, [0; 1]); (LocSegTree 0, [0; 1])] /\
+  d_snap d = Some ([0; 1], [0; 1], [0; 1; 2]).
+Proof. exact full_run_nonvacuous. Qed.
 
 (* every observation is covered: without the snapshot nothing was observed *)
 Theorem C08_no_observation_without_snapshot : forall s g ts,
